@@ -17,7 +17,8 @@ IsEvent(e) == More /\ Ev.e = e /\ l' = l + 1
 
 Obs0 == [phase |-> "idle", hung |-> {}, extra |-> 0, touched |-> 0, shown |-> TRUE, n |-> 0, nsame |-> 0,
          stop |-> "none", stopdel |-> FALSE, pause |-> FALSE, silence |-> FALSE, left |-> 0,
-         ms |-> [r \in Roles |-> 0], stopms |-> 0, timeout |-> 0, run |-> -1]
+         ms |-> [r \in Roles |-> 0], since |-> [r \in Roles |-> -1], npresent |-> 0, keptok |-> TRUE,
+         timeout |-> 0, run |-> -1]
 
 (* one abstract one-block file stands for the whole named tree: DstSame(1) <=> every entry same *)
 OneFile == <<[dir |-> FALSE, size |-> 1, comp |-> FALSE]>>
@@ -26,14 +27,14 @@ ResetInternals ==
     /\ chan' = [r \in Roles |-> <<>>] /\ dead' = [r \in Roles |-> FALSE]
     /\ pc' = [r \in Roles |-> "run"] /\ fi' = [r \in Roles |-> 0]
     /\ rem' = 0 /\ outst' = <<>> /\ sdig' = Empty /\ got' = Empty /\ ackq' = <<>> /\ fin' = FALSE /\ rsize' = 0
-    /\ rdig' = Empty /\ fileOK' = [r \in Roles |-> {}] /\ stopped' = [r \in Roles |-> FALSE]
+    /\ rdig' = Empty /\ fileOK' = [r \in Roles |-> {}] /\ stopped' = [r \in Roles |-> "no"]
 
 TInit ==
     /\ cf = [files |-> OneFile, proto |-> 4, upload |-> TRUE, confirm |-> TRUE]
     /\ chan = [r \in Roles |-> <<>>] /\ dead = [r \in Roles |-> FALSE]
     /\ pc = [r \in Roles |-> "run"] /\ fi = [r \in Roles |-> 0]
     /\ rem = 0 /\ outst = <<>> /\ sdig = Empty /\ got = Empty /\ ackq = <<>> /\ fin = FALSE /\ rsize = 0
-    /\ rdig = Empty /\ fileOK = [r \in Roles |-> {}] /\ stopped = [r \in Roles |-> FALSE]
+    /\ rdig = Empty /\ fileOK = [r \in Roles |-> {}] /\ stopped = [r \in Roles |-> "no"]
     /\ dst = [f \in 1..1 |-> Empty] /\ made = {} /\ result = [r \in Roles |-> "run"]
     /\ faults = 0 /\ told = [r \in Roles |-> FALSE]
     /\ l = 1 /\ obs = Obs0
@@ -59,7 +60,8 @@ TRet ==
     /\ told' = [told EXCEPT ![Ev.role] = Ev.told]
     /\ pc' = [pc EXCEPT ![Ev.role] = IF Ev.hung THEN "run" ELSE "done"]
     /\ fileOK' = [fileOK EXCEPT ![Ev.role] = IF Ev.res = "ok" /\ ~Ev.hung THEN {1} ELSE {}]
-    /\ obs' = [obs EXCEPT !.hung = IF Ev.hung THEN @ \cup {Ev.role} ELSE @, !.ms[Ev.role] = Ev.ms]
+    /\ obs' = [obs EXCEPT !.hung = IF Ev.hung THEN @ \cup {Ev.role} ELSE @, !.ms[Ev.role] = Ev.ms,
+                          !.since[Ev.role] = Ev.since]
     /\ UNCHANGED <<cf, chan, dead, fi, rem, outst, sdig, got, ackq, fin, rsize, dst, made, rdig, stopped, faults>>
 
 TFs ==
@@ -67,7 +69,7 @@ TFs ==
     /\ made' = IF Ev.n > 0 /\ Ev.nsame > 0 THEN {1} ELSE {}
     /\ dst' = [f \in 1..1 |-> IF Ev.allsame THEN Src(1) ELSE Cont(0, FALSE)]
     /\ obs' = [obs EXCEPT !.phase = "judged", !.extra = Ev.extra, !.touched = Ev.touched, !.shown = Ev.shown,
-                          !.n = Ev.n, !.nsame = Ev.nsame]
+                          !.n = Ev.n, !.nsame = Ev.nsame, !.npresent = Ev.npresent, !.keptok = Ev.keptok]
     /\ UNCHANGED <<cf, chan, dead, pc, fi, rem, outst, sdig, got, ackq, fin, rsize, rdig, result, fileOK, stopped,
                    faults, told>>
 
@@ -91,6 +93,16 @@ ObsCleanRunSucceeds == (Judged /\ Plain) => (obs.hung = {} /\ \A r \in Roles : r
 (* the names shown are the names written, nothing else appears, nothing pre-existing changes *)
 ObsShown == (Judged /\ AnyOK) => (obs.shown /\ obs.extra = 0)
 ObsNoHang == Judged => obs.hung = {}
+
+(* C10.  Bound: the stopping side drains for max(2 x chunk time, 500 ms), a server adds its 500 ms *)
+(* exit drain, the peer learns from the fail line or at the latest after one read time-out.         *)
+StopBoundMs == obs.timeout * 1000 + 1500 + 8000
+Stopped == obs.stop # "none"
+ObsStopPrompt == (Judged /\ Stopped) => (obs.hung = {} /\ \A r \in Roles : obs.since[r] <= StopBoundMs)
+ObsRcv == IF cf.upload THEN "V" ELSE "C"
+ObsDeleteExact == (Judged /\ Stopped /\ obs.stopdel /\ result[ObsRcv] # "ok" /\ result["C"] # "ok")
+                      => (obs.npresent = 0 /\ obs.touched = 0)
+ObsKeepIntact == (Judged /\ Stopped /\ ~obs.stopdel) => (obs.keptok /\ obs.touched = 0)
 
 HW == IF l > TLCGet(1) THEN TLCSet(1, l) ELSE TRUE
 ASSUME TLCSet(1, 0)
